@@ -232,6 +232,8 @@ class Check:
         if not names:
             self.proof_break(module, "no theorems found in property module")
             allok = False
+        if self.tier == "thorough" and allok:
+            allok = self.leanchecker([module]) and allok
         return allok
 
     def leanchecker(self, modules):
@@ -242,19 +244,29 @@ class Check:
             self.proof_break("leanchecker", (r.stdout + r.stderr)[-400:])
         return r.returncode == 0
 
-    def run_driver(self, name, lines, timeout=1200):
-        """Pipe `lines` to lean/Driver/<name>.lean; returns list of output lines (same length)."""
+    def run_driver(self, module, lines, timeout=3600):
+        """Build `module` (e.g. LinOp.C17.Driver, a file with `def main`) and pipe `lines` to it with
+        `lake env lean --run`; returns the list of output lines (same length) or None (recorded as broken)."""
         if not lines:
             return []
-        ok, out = self.lean_build([f"LinOp"]) if False else (True, "")
+        if "." not in module:
+            module = f"LinOp.{module}.Driver"
+        ok, out = self.lean_build([module])
+        rel = module.replace(".", "/") + ".lean"
+        if not ok:
+            m = re.search(r"error: (.*?)\n(.*?)\n", out, re.S)
+            self.proof_break(module, "driver does not build: " + ((m.group(1) + " " + m.group(2))[:400] if m else out[-400:]))
+            return None
         inp = "\n".join(lines) + "\n"
-        r = subprocess.run(["lake", "env", "lean", "--run", f"Driver/{name}.lean"], cwd=LEAN, input=inp,
+        t = time.time()
+        r = subprocess.run(["lake", "env", "lean", "--run", rel], cwd=LEAN, input=inp,
                            capture_output=True, text=True, timeout=timeout)
+        self.extra["driver_s"] = round(self.extra.get("driver_s", 0) + time.time() - t, 2)
         outs = r.stdout.split("\n")
         if outs and outs[-1] == "":
             outs.pop()
         if r.returncode != 0 or len(outs) != len(lines):
-            self.proof_break(f"Driver/{name}.lean", f"driver failed rc={r.returncode} got {len(outs)} lines for {len(lines)}: {(r.stderr or r.stdout)[-400:]}")
+            self.proof_break(module, f"driver failed rc={r.returncode} got {len(outs)} lines for {len(lines)}: {(r.stderr or r.stdout)[-400:]}")
             return None
         return outs
 
